@@ -109,6 +109,15 @@ def monitor(sc, obs):
         t = tag
         if kind == 'gen' and x0.kind == 'STOP' and x0.value != 'N': t = t or 'generator_return_value'
         if a1[0] == 'gennew' and x0.exc_class == 'TypeError' and x1.kind == 'R': t = 'generator_call_binding_deferred'
+        # a keyword that names a positional-only parameter of a function with **kwargs: a valid call that inspect.Signature.bind
+        # rejects, so every `_`-form validator of the stack raises TypeError (C01-F2: the same defect seen from here)
+        call = a1 if a1[0] in ('call', 'gennew') else next((x for x, _ in seq['f'] if x[0] == 'gennew' and x[1] == a1[1]), None)
+        if call is not None:
+            kws = call[3] if call[0] == 'call' else call[4]
+            fsig = sc['funs'][0]['sig']
+            posonly = {p[0] for p in fsig if p[1] == 'PosOnly'}
+            short = any(it[0] in ('pre', 'post', 'ensure', 'reason') and [p[0] for p in it[-1]['sig']] == ['_'] for it in sc['funs'][0]['stack'] if isinstance(it[-1], dict))
+            if short and any(n in posonly for n, _ in kws) and any(p[1] == 'VarKw' for p in fsig): t = t or 'posonly_name_as_keyword'
         if '?copy' in x1.outcome:
             out.append((f'the decorated callable returned / received a copy of an argument object: {x1.outcome!r}', None)); break
         if l1 != l0:
